@@ -103,52 +103,82 @@ Proof.
 Qed.
 Print Assumptions C03_full_refuted.
 
-(* REFUTED without [name_safe]: H5Writer.fetch_handle returns the project node for anything whose name equals the
-   project's name.  Witness: the path of Entity.name (store the name, persist "attributes") passes the check, the
-   entity is on file and in sync, the value stored is the project's name - afterwards memory and file differ. *)
+(* OLD-CODE refutation (about the model parameter [nrule], not about today's source): under the former
+   H5Writer.fetch_handle shortcut `if entity.name == base: return base_handle` an entity with [nrule e = true] that is
+   given the project's name loses the write.  Witness: the path of Entity.name (store the name, persist
+   "attributes") passes the check, [e_ws] is on file and in sync with nrule = true, the value stored is the project's
+   name - afterwards memory and file differ.  This is why the generic theorem carries [name_safe]. *)
 Definition C03_any_value : Prop := forall watch p u vals e,
   fp_ok watch p = true -> unroll p u -> onf e = true -> in_sync watch e -> in_sync watch (run u 0 vals e).
 
-Theorem C03_project_name_refuted : T_name_rule = true -> ~ C03_any_value.
+Theorem C03_project_name_refuted_old_rule : nrule e_ws = true /\ ~ C03_any_value.
 Proof.
-  intros _ H.
+  split; [reflexivity|]. intros H.
   specialize (H [NAME] [X (FStore NAME); X (FPersist [NAME])] [FStore NAME; FPersist [NAME]] vals_ws e_ws).
   assert (S : in_sync [NAME] (run [FStore NAME; FPersist [NAME]] 0 vals_ws e_ws)).
   { apply H; try reflexivity. repeat constructor. intros f _. reflexivity. }
   specialize (S NAME (or_introl eq_refl)). vm_compute in S. discriminate.
 Qed.
-Print Assumptions C03_project_name_refuted.
+Print Assumptions C03_project_name_refuted_old_rule.
+
+(* TODAY'S SOURCE: the extractor finds the shortcut guarded (`not isinstance(entity, (Entity, EntityType)) and ...`), so the
+   generated flag is false, every entity of the current tree ([nrule e = T_name_rule]) is name_safe for any values, and the
+   write-through theorem holds without that hypothesis.  (A tree that re-introduces the shortcut makes this fail.) *)
+Theorem C03_name_safe_current : T_name_rule = false /\ forall e vals, nrule e = T_name_rule -> name_safe e vals.
+Proof. split; [reflexivity|]. intros e vals H. left. rewrite H. reflexivity. Qed.
+Print Assumptions C03_name_safe_current.
+
+Theorem C03_write_through_sound_current : forall watch p u vals e,
+  nrule e = T_name_rule -> fp_ok watch p = true -> unroll p u -> onf e = true -> in_sync watch e ->
+  in_sync watch (run u 0 vals e).
+Proof.
+  intros watch p u vals e Hr Hok Hu Hon Hs.
+  exact (write_through_sound watch p u vals e Hok Hu Hon (proj2 C03_name_safe_current e vals Hr) Hs).
+Qed.
+Print Assumptions C03_write_through_sound_current.
 
 (* ------------------------------------------------------------------ the writer side (Model/SettersWriter.v) *)
 (* H5Writer.write_attributes, one key: for every well-formed non-None value of every Python/numpy scalar type (bool,
-   np.bool_, np.int8, wider numpy integers, int, float, np.floating, str - unbounded in magnitude), whatever the
-   attribute held before, the branch chain extracted from the source stores a value that reads back equal. *)
+   np.bool_, np.int8, wider numpy integers and int within the int64 range, float, np.floating, text without an embedded
+   NUL - see [wf]), whatever the attribute held before, the branch chain extracted from the source stores a value that
+   reads back equal.  ([AModify]/[GExists] do not occur in today's chain; they let the table express a changed chain.) *)
 Theorem C03_scalar_write_faithful : forall old v, wf v ->
   exists st, write_scalar T_scalar_chain old v = Some st /\ faithful st v.
 Proof. intros old v. apply scalar_write_faithful. vm_compute. reflexivity. Qed.
 Print Assumptions C03_scalar_write_faithful.
 
-(* The dataset writers (value map, colour map, array attributes, data values / metadata / options): after the routine
-   ran with value v (None included) the file holds exactly v, whatever it held before. *)
-Theorem C03_dataset_writers_exact : forall name steps, In (name, steps) T_writers ->
+(* The dataset writers (value map, colour map, array attributes, data values / metadata / options): the table names
+   exactly these four routines (an extractor that returns nothing cannot satisfy this), and after each ran with value v
+   (None included) the file holds exactly v, whatever it held before. *)
+Theorem C03_dataset_writers_exact :
+  map fst T_writers = ["write_array_attribute"; "write_color_map"; "write_data_values"; "write_value_map"]%string /\
+  forall name steps, In (name, steps) T_writers ->
   forall (A : Type) (old v : option A), wfinal steps old v = Some v.
 Proof.
+  split; [reflexivity|].
   assert (H : forallb (fun p => writer_ok (snd p)) T_writers = true) by (vm_compute; reflexivity).
   rewrite forallb_forall in H. intros name steps Hin A old v. apply dataset_write_exact. exact (H _ Hin).
 Qed.
 Print Assumptions C03_dataset_writers_exact.
 
-(* REFUTED for None: write_attributes skips a None value (`or value is None: continue`), so clearing an attribute that
-   holds something leaves the old value on file.  Witness: end_of_hole = 100 stored, then None assigned. *)
-Definition C03_scalar_none_clears : Prop :=
-  forall old, write_attr T_scalar_chain T_skip_none old None = Some None.
-
-Theorem C03_scalar_none_refuted : T_skip_none = true -> ~ C03_scalar_none_clears.
+(* None on a scalar attribute.  OLD CODE (model parameter skip_none = true, i.e. `... or value is None: continue`):
+   clearing an attribute that holds something leaves the old value on file - refuted with the witness end_of_hole = 100
+   stored, then None assigned. *)
+Theorem C03_scalar_none_refuted_old_skip :
+  ~ (forall old, write_attr T_scalar_chain true old None = Some None).
 Proof.
-  intros Hs H. unfold C03_scalar_none_clears in H. rewrite Hs in H. specialize (H (Some {| h_type := HInt64; h_int := 100%Z; h_frac := false; h_txt := 0%N |})).
+  intros H. specialize (H (Some {| h_type := HInt64; h_int := 100%Z; h_frac := false; h_txt := 0%N |})).
   vm_compute in H. discriminate.
 Qed.
-Print Assumptions C03_scalar_none_refuted.
+Print Assumptions C03_scalar_none_refuted_old_skip.
+
+(* TODAY'S SOURCE (generated flag T_skip_none, false since the None case deletes the attribute before `continue`):
+   writing None over any old value leaves the attribute absent, so a reader gets None back.  (Fails on a tree that
+   skips None again.) *)
+Theorem C03_scalar_none_clears_current :
+  T_skip_none = false /\ forall old, write_attr T_scalar_chain T_skip_none old None = Some None.
+Proof. split; [reflexivity|]. intros old. reflexivity. Qed.
+Print Assumptions C03_scalar_none_clears_current.
 
 (* non-vacuity: the hypotheses of the soundness theorem are met by a non-trivial path (a loop whose body stores and
    relies on the persistence call after the loop), and the on-file hypothesis is needed. *)
